@@ -11,13 +11,95 @@ descriptors, live child processes) and reported with a failure; growth alone is 
 
 A failing FIRST call is not this monitor's business (the property's own cases judge single calls):
 the run is then inconclusive."""
-import os, gc, hashlib, resource, shutil
+import os, gc, sys, time, hashlib, resource, shutil, threading, traceback
 import numpy as np
 from . import common, gen, pools
 
 LIMIT = {"quick": 160, "thorough": 256}
 CALLS = {"quick": 120, "thorough": 300}
 MAX_WORKERS = 4      # per pool; keeps a call cheap and the descriptors one pool needs (6 + 2 W) far below the limit
+STALL = 60.0         # seconds without a call returning (a call takes 0.02 .. 0.5 s) before the thread stacks are examined
+DELAYED_CALLS = 6
+HANDLER_DELAY = 0.01     # injected before the pool's task-handler thread records that every task was sent
+
+
+class _HandlerDelay:
+    """Schedule perturbation at a thread switch the interpreter may take anyway: the pool's task-handler thread is
+    held for 10 ms just before it records that every task of an imap() call has been sent (IMapIterator._set_length).
+    By then the (small) results are usually all in - the ordering a loaded machine produces now and then. One such
+    schedule is legal; a hundred in a row are not a realistic history, so the delayed calls are judged one by one
+    (does the call return, and what) under the process's normal open-file limit, never on what they leave behind."""
+    def __init__(self, rec):
+        self.rec = rec
+
+    def __enter__(self):
+        import multiprocessing.pool as mpp
+        self.orig = orig = mpp.IMapIterator._set_length
+        rec = self.rec
+
+        def _set_length(it, length):
+            time.sleep(HANDLER_DELAY)
+            rec.obs["endurance_task_handler_delays_injected"] = rec.obs.get("endurance_task_handler_delays_injected", 0) + 1
+            return orig(it, length)
+        mpp.IMapIterator._set_length = _set_length
+        return self
+
+    def __exit__(self, *a):
+        import multiprocessing.pool as mpp
+        mpp.IMapIterator._set_length = self.orig
+
+
+def _stacks():
+    names = {t.ident: t.name for t in threading.enumerate()}
+    out = {}
+    for tid, fr in sys._current_frames().items():
+        out[names.get(tid, str(tid))] = [(f.name, os.path.basename(f.filename), f.lineno) for f in traceback.extract_stack(fr)]
+    return out
+
+
+def _self_finalizing_pool(stacks):
+    """The wait-for cycle of a pool that is finalized by its own task-handler thread: that thread is inside
+    Pool._terminate_pool -> _help_stuff_finish (waiting for the lock an idle worker holds until the handler sends
+    it something), reached from _handle_tasks; nobody else can send. Returns the thread name or None."""
+    for name, st in stacks.items():
+        fns = [f[0] for f in st]
+        if "_handle_tasks" in fns and "_terminate_pool" in fns and fns.index("_handle_tasks") < fns.index("_terminate_pool"):
+            return name
+    return None
+
+
+class _Watch(threading.Thread):
+    """decides a stalled series from the thread stacks (a structural wait-for cycle => violation; anything else =>
+    inconclusive), then ends the case process: the main thread will not come back"""
+    def __init__(self, rec, what, n, key):
+        super().__init__(daemon=True, name="endurance-watch")
+        self.rec, self.what, self.n, self.key = rec, what, n, key
+        self.k, self.t, self.done, self.phase = 0, time.time(), False, ""
+
+    def tick(self, k):
+        self.k, self.t = k, time.time()
+
+    def run(self):
+        while not self.done:
+            time.sleep(1.0)
+            if self.done or time.time() - self.t < STALL:
+                continue
+            st = _stacks()
+            who = _self_finalizing_pool(st)
+            main = [f"{f[0]} ({f[1]}:{f[2]})" for f in st.get("MainThread", st.get("caller", []))][-4:]
+            if who:
+                self.rec.violation(f"call {self.k + 1} of identical calls in one process never returned after {self.k} correct ones "
+                                   f"{self.phase + ' ' if self.phase else ''}(deadlock: the worker pool is being finalized by its own task-handler thread while the caller "
+                                   f"waits for results in {' <- '.join(reversed(main))}): {self.what}",
+                                   witness={"stalled_call": self.k + 1, "stacks": {k: v[-8:] for k, v in st.items()}},
+                                   mech="deadlock-after-repeated-calls", key=self.key)
+            else:
+                self.rec.undecided(f"endurance: call {self.k + 1} has not returned for {STALL:.0f} s and the thread stacks show no wait-for "
+                                   f"cycle this monitor knows (caller in {' <- '.join(reversed(main))}): {self.what}")
+            from . import runner
+            if runner.FINISH is not None:
+                runner.FINISH()
+            os._exit(3)
 
 
 def n_fds():
@@ -93,8 +175,11 @@ def repeat(rec, tier, what, call, key=None, calls=None):
     resource.setrlimit(resource.RLIMIT_NOFILE, (lim, hard))
     trace, first = [], None
     key = key or ("endurance", what)
+    watch = _Watch(rec, what, n, key)
+    watch.start()
     try:
         for k in range(n):
+            watch.tick(k)
             try:
                 d = call(k)
             except (Exception, SystemExit) as e:
@@ -116,6 +201,23 @@ def repeat(rec, tier, what, call, key=None, calls=None):
                 rec.violation(f"call {k + 1} of {n} identical calls in one process produced something else than call 1: {what}",
                               witness={"calls": n, "differs_at": k + 1}, mech="repeated-call-differs", key=key)
                 return
+        # the same call under the perturbed schedule, a few times, under the normal limit
+        resource.setrlimit(resource.RLIMIT_NOFILE, (soft, hard))
+        watch.phase = "with the pool's task-handler thread delayed by 10 ms"
+        with _HandlerDelay(rec):
+            for j in range(DELAYED_CALLS):
+                watch.tick(n + j)
+                try:
+                    d = call(n + j)
+                except (Exception, SystemExit) as e:
+                    rec.violation(f"the call failed ({type(e).__name__}: {str(e)[:80]}) {watch.phase} after {n + j} correct ones: {what}",
+                                  witness={"delayed_call": j + 1}, mech="fails-under-delayed-task-handler", key=key)
+                    return
+                if d != first:
+                    rec.violation(f"the call produced something else than call 1 {watch.phase}: {what}",
+                                  witness={"delayed_call": j + 1}, mech="repeated-call-differs", key=key)
+                    return
+                rec.count("endurance_calls_with_delayed_task_handler")
         rec.ok(key, True)
         rec.count("endurance_calls", n)
         rec.count("endurance_series")
@@ -124,6 +226,7 @@ def repeat(rec, tier, what, call, key=None, calls=None):
         rec.obs["endurance_max_child_processes_left"] = max(b for _, b in trace)
         rec.seen("endurance_operations", what.split(":")[0])
     finally:
+        watch.done = True
         resource.setrlimit(resource.RLIMIT_NOFILE, (soft, hard))
         os.cpu_count = cpu_count
 
@@ -146,8 +249,9 @@ def _op_iterate(work, seed):
 
     def call(k):
         pck = PlotfileCooker(path)
-        return digest([sorted((a.shape, a.tobytes()) for a in pck[["f0", "f1"]][lv]) for lv in range(m.nlevels)])
-    return "iterate: for box in pck[fields][lv] at every level", call
+        return digest([sorted((a.shape, a.tobytes()) for a in pck[["f0", "f1"]][lv]) for lv in range(m.nlevels)],
+                      list(pck["f2"][0].iter(slice(0, 3))), list(pck["f1"][0].iter([2, 0])))
+    return "iterate: for box in pck[fields][lv] at every level, .iter(slice), .iter(list)", call
 
 
 def _op_strain(work, seed):
